@@ -314,3 +314,539 @@ Proof.
     + apply Forall_forall. intros x Hx. apply runs_in_range in Hx. lia.
     + lia.
 Qed.
+
+(* ================================================================ convert_to_flat: row-major enumeration *)
+Fixpoint prod_lists (ls : list (list Z)) : list (list Z) :=
+  match ls with
+  | [] => [[]]
+  | l :: r => flat_map (fun a => map (cons a) (prod_lists r)) l
+  end.
+
+Definition lens_of (ls : list (list Z)) : list Z := map (fun l => Z.of_nat (length l)) ls.
+
+Fixpoint zats (ls : list (list Z)) (ps : list Z) : list Z :=
+  match ls, ps with
+  | l :: r, p :: ps' => zat l p :: zats r ps'
+  | _, _ => []
+  end.
+
+Lemma flat_map_map' {A B C} (g : A -> B) (f : B -> list C) l : flat_map f (map g l) = flat_map (fun a => f (g a)) l.
+Proof. induction l as [|a l IH]; simpl; [reflexivity|]. rewrite IH. reflexivity. Qed.
+
+Lemma map_flat_map {A B C} (h : B -> C) (f : A -> list B) l : map h (flat_map f l) = flat_map (fun a => map h (f a)) l.
+Proof. induction l as [|a l IH]; simpl; [reflexivity|]. rewrite map_app, IH. reflexivity. Qed.
+
+Lemma convert_to_flat_ravel : forall (Vs : list (list Z)) (sh : shape),
+  length Vs = length sh -> convert_to_flat Vs sh = map (ravel sh) (prod_lists Vs).
+Proof.
+  unfold convert_to_flat. induction Vs as [|l Vs IH]; intros [|d sh] Hlen; try discriminate; [reflexivity|].
+  simpl in Hlen. cbn [shape_bins scale_all flat_sums prod_lists]. rewrite (IH sh) by lia.
+  rewrite flat_map_map', map_flat_map.
+  apply flat_map_ext. intros a. rewrite !map_map. apply map_ext. intros t. cbn [ravel]. lia.
+Qed.
+
+Lemma prod_lists_length Vs : Z.of_nat (length (prod_lists Vs)) = size (lens_of Vs).
+Proof.
+  induction Vs as [|l Vs IH]; [reflexivity|].
+  change (lens_of (l :: Vs)) with (Z.of_nat (length l) :: lens_of Vs). cbn [prod_lists size fold_right].
+  fold (size (lens_of Vs)). rewrite <- IH. clear IH. induction l as [|a l IHl]; [reflexivity|].
+  cbn [flat_map length]. rewrite app_length, map_length, Nat2Z.inj_add, IHl. lia.
+Qed.
+
+Lemma nth_flat_map_block {A B} (f : A -> list B) (m : nat) (d : B) :
+  forall (l : list A) (p q : nat) (da : A),
+    (forall a, In a l -> length (f a) = m) -> (p < length l)%nat -> (q < m)%nat ->
+    nth (p * m + q) (flat_map f l) d = nth q (f (nth p l da)) d.
+Proof.
+  induction l as [|a l IH]; intros p q da Hm Hp Hq; [simpl in Hp; lia|].
+  cbn [flat_map]. destruct p as [|p].
+  - cbn [nth]. rewrite Nat.mul_0_l, Nat.add_0_l. rewrite app_nth1 by (rewrite (Hm a (or_introl eq_refl)); exact Hq). reflexivity.
+  - cbn [nth]. rewrite app_nth2 by (rewrite (Hm a (or_introl eq_refl)); lia).
+    rewrite (Hm a (or_introl eq_refl)). replace (S p * m + q - m)%nat with (p * m + q)%nat by lia.
+    apply IH; [intros; apply Hm; right; assumption|simpl in Hp; lia|exact Hq].
+Qed.
+
+Lemma nth_prod Vs : forall ps,
+  in_range (lens_of Vs) ps ->
+  nth (Z.to_nat (ravel (lens_of Vs) ps)) (prod_lists Vs) [] = zats Vs ps.
+Proof.
+  induction Vs as [|l Vs IH]; intros ps Hr.
+  - destruct ps; [reflexivity|simpl in Hr; contradiction].
+  - destruct ps as [|p ps]; [simpl in Hr; contradiction|]. cbn [lens_of map in_range] in Hr. fold (lens_of Vs) in Hr.
+    destruct Hr as [Hp Hr]. cbn [lens_of map ravel prod_lists zats]. fold (lens_of Vs).
+    pose proof (ravel_bounds _ _ Hr) as Hb. pose proof (prod_lists_length Vs) as Hlen.
+    set (m := length (prod_lists Vs)) in *.
+    replace (Z.to_nat (p * size (lens_of Vs) + ravel (lens_of Vs) ps))
+      with (Z.to_nat p * m + Z.to_nat (ravel (lens_of Vs) ps))%nat by nia.
+    rewrite (nth_flat_map_block (fun a => map (cons a) (prod_lists Vs)) m [] l (Z.to_nat p) _ 0).
+    + rewrite (nth_indep _ [] (zat l p :: [])) by (rewrite map_length; fold m; lia).
+      change (zat l p :: []) with ((fun t => zat l p :: t) []) at 1.
+      unfold zat at 1. rewrite map_nth. f_equal. apply IH. exact Hr.
+    + intros a _. apply map_length.
+    + lia.
+    + lia.
+Qed.
+
+Lemma in_prod Vs : forall t, In t (prod_lists Vs) -> length t = length Vs /\ Forall2 (fun v l => In v l) t Vs.
+Proof.
+  induction Vs as [|l Vs IH]; intros t Ht.
+  - destruct Ht as [<-|[]]. split; [reflexivity|constructor].
+  - cbn [prod_lists] in Ht. apply in_flat_map in Ht. destruct Ht as [a [Ha Ht]]. apply in_map_iff in Ht.
+    destruct Ht as [t' [<- Ht']]. destruct (IH t' Ht') as [H1 H2]. split; [simpl; lia|constructor; assumption].
+Qed.
+
+(* ================================================================ the selected elements as a sorted key list *)
+Section Lout.
+  Variable V : Type.
+  Variable keys : list Z.            (* the (strictly increasing) keys of the source array *)
+  Variable data : list V.
+  Variable fill : V.
+  Variable cs : Z.
+  Variable CL : list Z.
+  Let ncols := length CL.
+
+  (* what the kernel emits for source row r: (position in the source, requested column) *)
+  Definition rowsel (r : Z) : list (nat * nat) :=
+    flat_map (fun cc => match find_pos keys (r * cs + nth cc CL 0) 0 with
+                        | Some q => [(q, cc)]
+                        | None => []
+                        end) (seq 0 ncols).
+
+  (* result key (row index * ncols + column index) and value of every selected element *)
+  Fixpoint lout (i : Z) (RW : list Z) : list (Z * V) :=
+    match RW with
+    | [] => []
+    | r :: R => map (fun p : nat * nat => (i * Z.of_nat ncols + Z.of_nat (snd p), nth (fst p) data fill)) (rowsel r)
+                ++ lout (i + 1) R
+    end.
+
+  Lemma rowsel_cc r p : In p (rowsel r) -> (snd p < ncols)%nat /\ find_pos keys (r * cs + nth (snd p) CL 0) 0 = Some (fst p).
+  Proof.
+    unfold rowsel. intros H. apply in_flat_map in H. destruct H as [cc [Hcc H]]. apply in_seq0 in Hcc.
+    destruct (find_pos keys (r * cs + nth cc CL 0) 0) as [q|] eqn:E; [|destruct H]. destruct H as [<-|[]]. simpl. auto.
+  Qed.
+
+  Lemma rowsel_intro r cc q : (cc < ncols)%nat -> find_pos keys (r * cs + nth cc CL 0) 0 = Some q -> In (q, cc) (rowsel r).
+  Proof.
+    intros Hcc E. unfold rowsel. apply in_flat_map. exists cc. split; [apply in_seq0; exact Hcc|]. rewrite E. left. reflexivity.
+  Qed.
+
+  Lemma lout_snd : forall RW i,
+    map snd (lout i RW) = map (fun p : nat * nat => nth (fst p) data fill) (flat_map rowsel RW).
+  Proof.
+    induction RW as [|r R IH]; intros i; [reflexivity|]. cbn [lout flat_map]. rewrite !map_app, map_map, IH. reflexivity.
+  Qed.
+
+  Lemma lout_mod : forall RW i,
+    map (fun e : Z * V => fst e mod Z.of_nat ncols) (lout i RW) = map (fun p : nat * nat => Z.of_nat (snd p)) (flat_map rowsel RW).
+  Proof.
+    induction RW as [|r R IH]; intros i; [reflexivity|]. cbn [lout flat_map]. rewrite !map_app, map_map, IH. f_equal.
+    apply map_ext_in. intros p Hp. apply rowsel_cc in Hp. destruct Hp as [Hp _]. cbn [fst snd].
+    rewrite Z.add_comm, Z.mod_add by lia. apply Z.mod_small. lia.
+  Qed.
+
+  Lemma lout_div : forall RW i,
+    map (fun e : Z * V => fst e / Z.of_nat ncols) (lout i RW) = runs i (map (fun r => Z.of_nat (length (rowsel r))) RW).
+  Proof.
+    induction RW as [|r R IH]; intros i; [reflexivity|]. cbn [lout map runs]. rewrite map_app, map_map, IH. f_equal.
+    rewrite Nat2Z.id. rewrite <- (map_length (fun p : nat * nat => i) (rowsel r)) at 1.
+    assert (H : forall (l : list (nat * nat)), (forall p, In p l -> (snd p < ncols)%nat) ->
+              map (fun p : nat * nat => (i * Z.of_nat ncols + Z.of_nat (snd p)) / Z.of_nat ncols) l = repeat i (length l)).
+    { induction l as [|p l IHl]; intros Hl; [reflexivity|]. cbn [map length repeat]. rewrite IHl by (intros; apply Hl; right; assumption).
+      f_equal. specialize (Hl p (or_introl eq_refl)). rewrite Z.add_comm, Z.div_add by lia. rewrite Z.div_small by lia. lia. }
+    rewrite map_length. apply H. intros p Hp. apply (rowsel_cc r p Hp).
+  Qed.
+
+  Lemma lout_In : forall RW i k v,
+    In (k, v) (lout i RW) <->
+    exists (m cc q : nat), (m < length RW)%nat /\ (cc < ncols)%nat
+      /\ find_pos keys (nth m RW 0 * cs + nth cc CL 0) 0 = Some q
+      /\ k = (i + Z.of_nat m) * Z.of_nat ncols + Z.of_nat cc /\ v = nth q data fill.
+  Proof.
+    induction RW as [|r R IH]; intros i k v.
+    - simpl. split; [tauto|]. intros [m [cc [q [Hm _]]]]. lia.
+    - cbn [lout]. rewrite in_app_iff, in_map_iff, IH. split.
+      + intros [[p [Hp Hin]]|[m [cc [q [Hm [Hcc [E [Hk Hv]]]]]]]].
+        * inversion Hp; subst. destruct (rowsel_cc r p Hin) as [H1 H2]. exists 0%nat, (snd p), (fst p).
+          cbn [nth length]. repeat split; try lia; auto.
+        * exists (S m), cc, q. cbn [nth length]. repeat split; try lia; auto.
+      + intros [m [cc [q [Hm [Hcc [E [Hk Hv]]]]]]]. destruct m as [|m].
+        * left. exists (q, cc). cbn [nth] in E. split; [cbn [fst snd]; subst; f_equal; lia|apply rowsel_intro; assumption].
+        * right. exists m, cc, q. cbn [nth length] in *. repeat split; try lia; auto.
+  Qed.
+
+  Lemma rowsel_sorted r i : forall n lo,
+    StronglySorted (fun a b : Z * V => fst a < fst b)
+      (map (fun p : nat * nat => (i * Z.of_nat ncols + Z.of_nat (snd p), nth (fst p) data fill))
+           (flat_map (fun cc => match find_pos keys (r * cs + nth cc CL 0) 0 with
+                                | Some q => [(q, cc)] | None => [] end) (seq lo n))).
+  Proof.
+    induction n as [|m IHm]; intros lo; [constructor|].
+    cbn [seq flat_map]. rewrite map_app. apply SS_app; [|apply IHm|].
+    - destruct (find_pos keys (r * cs + nth lo CL 0) 0); repeat constructor.
+    - intros a b Ha Hb. apply in_map_iff in Ha, Hb. destruct Ha as [pa [<- Ha]], Hb as [pb [<- Hb]]. cbn [fst snd].
+      assert (snd pa = lo) by (destruct (find_pos keys (r * cs + nth lo CL 0) 0); [destruct Ha as [<-|[]]; reflexivity|destruct Ha]).
+      apply in_flat_map in Hb. destruct Hb as [cc [Hcc Hb]]. apply in_seq in Hcc.
+      assert (snd pb = cc) by (destruct (find_pos keys (r * cs + nth cc CL 0) 0); [destruct Hb as [<-|[]]; reflexivity|destruct Hb]).
+      lia.
+  Qed.
+
+  Lemma lout_sorted : forall RW i, StronglySorted (fun a b : Z * V => fst a < fst b) (lout i RW).
+  Proof.
+    induction RW as [|r R IH]; intros i; [constructor|]. cbn [lout]. apply SS_app; [apply rowsel_sorted|apply IH|].
+    intros a b Ha Hb. apply in_map_iff in Ha. destruct Ha as [pa [<- Ha]]. destruct b as [kb vb].
+    apply lout_In in Hb. destruct Hb as [m [cc [q [_ [Hcc [_ [-> _]]]]]]]. cbn [fst snd].
+    apply rowsel_cc in Ha. destruct Ha as [Ha _]. nia.
+  Qed.
+End Lout.
+
+(* ================================================================ the kernels on an array that came from a COO *)
+Section OnFromCoo.
+  Variable V : Type.
+  Variable c : coo V.
+  Variable ca : list Z.
+  Hypothesis Hc : canonical V c.
+  Hypothesis Hok : shape_ok (c_shape c).
+  Hypothesis Hca : caxes_okb (Z.of_nat (length (c_shape c))) ca = true.
+
+  Let sh := c_shape c.
+  Let rs := row_size sh ca.
+  Let cs := col_size sh ca.
+  Let s := gsorted V c ca.
+  Let keys := map fst s.
+  Let data := map snd s.
+  Let ind := map (colf V c ca) s.
+  Let ip := indptr_of (map (rowf V c ca) s) rs.
+
+  Lemma fc_sorted : StronglySorted (fun a b : Z * V => fst a < fst b) s.
+  Proof. apply gs_pairs_lt; assumption. Qed.
+
+  Lemma fc_rc p : In p s -> 0 <= rowf V c ca p < rs /\ 0 <= colf V c ca p < cs /\ rowf V c ca p * cs + colf V c ca p = fst p.
+  Proof. intros Hp. destruct (rowf_colf V c ca Hc Hok Hca p Hp) as [_ [_ [H1 [H2 H3]]]]. auto. Qed.
+
+  Lemma fc_ip_start r : 0 <= r <= rs -> Z.to_nat (nth (Z.to_nat r) ip 0) = rstart V s (rowf V c ca) r.
+  Proof.
+    intros Hr. unfold ip. rewrite (ip_nth V s rs cs (rowf V c ca) (colf V c ca) fc_rc (Z.to_nat r)) by lia.
+    rewrite Nat2Z.id, Z2Nat.id by lia. reflexivity.
+  Qed.
+
+  Lemma kernel_eval (RW CL : list Z) (pos_slice : bool) :
+    Forall (fun r => 0 <= r < rs) RW -> Forall (fun x => 0 <= x < cs) CL -> (pos_slice = true -> sincr CL) ->
+    let starts := map (fun r => Z.to_nat (nth (Z.to_nat r) ip 0)) RW in
+    let ends := map (fun r => Z.to_nat (nth (S (Z.to_nat r)) ip 0)) RW in
+    let rws := combine starts ends in
+    sel_res (if pos_slice then slicing_selection (code_path ind rws CL) ind rws CL else array_selection ind rws CL)
+    = Ok (flat_map (rowsel keys cs CL) RW,
+          0 :: cumsum_from 0 (map (fun r => Z.of_nat (length (rowsel keys cs CL r))) RW)).
+  Proof.
+    intros HRW HCL Hpos starts ends rws.
+    set (A := fun r => rstart V s (rowf V c ca) r). set (B := fun r => rstart V s (rowf V c ca) (r + 1)).
+    assert (Hrws : rws = map (fun r => (A r, B r)) RW).
+    { unfold rws, starts, ends. rewrite combine_map_map. apply map_ext_in. intros r Hr. rewrite Forall_forall in HRW. specialize (HRW r Hr).
+      f_equal; [apply fc_ip_start; lia|].
+      replace (S (Z.to_nat r)) with (Z.to_nat (r + 1)) by lia. apply fc_ip_start. lia. }
+    assert (Hsorted : rows_sorted ind rws).
+    { rewrite Hrws. unfold rows_sorted. rewrite Forall_map. apply Forall_forall. intros r _. cbn [fst snd].
+      apply (seg_cols_sincr V s rs cs (rowf V c ca) (colf V c ca) fc_sorted fc_rc). }
+    assert (Hspec : selection_spec ind rws CL
+                    = (flat_map (rowsel keys cs CL) RW, 0 :: cumsum_from 0 (map (fun r => Z.of_nat (length (rowsel keys cs CL r))) RW))).
+    { unfold selection_spec. rewrite Hrws, spec_rows_map. cbn [fst snd].
+      assert (Hrow : forall r, row_spec (seg ind (A r) (B r)) CL (A r) = rowsel keys cs CL r).
+      { intros r. unfold A, B, ind. rewrite (row_spec_keys V s rs cs (rowf V c ca) (colf V c ca) fc_sorted fc_rc r CL HCL). reflexivity. }
+      f_equal; [apply flat_map_ext; exact Hrow|]. f_equal. f_equal. apply map_ext. intros r. rewrite Hrow. reflexivity. }
+    destruct pos_slice.
+    - rewrite (slicing_selection_spec _ ind rws CL Hsorted (Hpos eq_refl) (code_path_safe ind rws CL)). cbn [sel_res]. rewrite Hspec. reflexivity.
+    - rewrite (array_selection_spec ind rws CL Hsorted). cbn [sel_res]. rewrite Hspec. reflexivity.
+  Qed.
+
+  (* a key of the source with its value: position in the sorted list *)
+  Lemma fc_key_pos k v : In (k, v) s <-> exists q, find_pos keys k 0 = Some q /\ nth q data (c_fill c) = v /\ (q < length s)%nat.
+  Proof.
+    split.
+    - intros Hin. apply (In_nth _ _ (k, v)) in Hin. destruct Hin as [q [Hq Hn]]. exists q.
+      assert (Hk : nth q keys 0 = k).
+      { unfold keys. rewrite (nth_indep _ 0 (fst (k, v))) by (rewrite map_length; exact Hq). rewrite map_nth, Hn. reflexivity. }
+      split; [apply (find_keys_some V s fc_sorted k q Hq Hk)|].
+      split; [|exact Hq]. unfold data. rewrite (nth_indep _ (c_fill c) (snd (k, v))) by (rewrite map_length; exact Hq).
+      rewrite map_nth, Hn. reflexivity.
+    - intros [q [Hf [Hv Hq]]]. apply find_pos_some in Hf. destruct Hf as [_ [_ [Hk _]]]. rewrite Nat.sub_0_r in Hk.
+      destruct (nth_error_lt s q Hq) as [p Hp]. unfold keys in Hk. rewrite (nth_map_error fst s q 0 p Hp) in Hk.
+      unfold data in Hv. rewrite (nth_map_error snd s q (c_fill c) p Hp) in Hv.
+      apply nth_error_In in Hp. destruct p as [k' v']. simpl in *. subst. exact Hp.
+  Qed.
+
+  (* stored entries of the COO and the sorted key list *)
+  Lemma fc_entries t v : in_range sh t -> (In (t, v) (entries c) <-> In (ckey sh ca t, v) s).
+  Proof.
+    intros Ht. pose proof (gs_perm V c ca) as Hp. fold sh s in Hp. pose proof Hc as [Hr [Hs Hl]]. rewrite Forall_forall in Hr. split.
+    - intros Hin. eapply Permutation_in; [exact Hp|]. unfold entries in Hin. rewrite combine_map_l. apply in_map_iff.
+      exists (t, v). split; [reflexivity|exact Hin].
+    - intros Hin. apply (Permutation_in _ (Permutation_sym Hp)) in Hin. rewrite combine_map_l in Hin. apply in_map_iff in Hin.
+      destruct Hin as [[t' v'] [E Hin]]. simpl in E. inversion E; subst v'.
+      assert (t' = t); [|subst; exact Hin].
+      apply (ckey_inj sh ca Hca); [apply Hr; eapply in_combine_l; exact Hin|exact Ht|assumption].
+  Qed.
+End OnFromCoo.
+
+(* ================================================================ the result is from_coo of the COO result *)
+Lemma SS_fst_unique {V} (l1 l2 : list (Z * V)) :
+  StronglySorted (fun a b : Z * V => fst a < fst b) l1 -> StronglySorted (fun a b : Z * V => fst a < fst b) l2 ->
+  (forall x, In x l1 <-> In x l2) -> l1 = l2.
+Proof.
+  intros H1. revert l2. induction H1 as [|a l1 Hs1 IH Hall1]; intros l2 H2 Hm.
+  - destruct l2 as [|b l2]; [reflexivity|]. exfalso. apply (Hm b). left; reflexivity.
+  - destruct H2 as [|b l2 Hs2 Hall2]; [exfalso; apply (Hm a); left; reflexivity|].
+    rewrite Forall_forall in Hall1, Hall2.
+    assert (a = b).
+    { destruct (proj1 (Hm a) (or_introl eq_refl)) as [->|Ha]; [reflexivity|].
+      destruct (proj2 (Hm b) (or_introl eq_refl)) as [->|Hb]; [reflexivity|].
+      specialize (Hall1 _ Hb). specialize (Hall2 _ Ha). lia. }
+    subst b. f_equal. apply IH; [assumption|].
+    intros x. split; intros Hx.
+    + destruct (proj1 (Hm x) (or_intror Hx)) as [->|?]; [|assumption]. specialize (Hall1 _ Hx). lia.
+    + destruct (proj2 (Hm x) (or_intror Hx)) as [->|?]; [|assumption]. specialize (Hall2 _ Hx). lia.
+Qed.
+
+Section Master.
+  Variable V : Type.
+  Variable c : coo V.
+  Variable ca : list Z.
+  Hypothesis Hc : canonical V c.
+  Hypothesis Hok : shape_ok (c_shape c).
+  Hypothesis Hca : caxes_okb (Z.of_nat (length (c_shape c))) ca = true.
+
+  Let sh := c_shape c.
+  Let cs := col_size sh ca.
+  Let s := gsorted V c ca.
+  Let keys := map fst s.
+  Let data := map snd s.
+
+  Variables RW CL : list Z.
+  Variable sh' : shape.
+  Variable gsrc : idx -> idx.
+  Variable y : coo V.
+  Hypothesis Hy_can : canonical V y.
+  Hypothesis Hy_sh : c_shape y = sh'.
+  Hypothesis Hy_ent : forall j v, in_range sh' j -> (In (j, v) (entries y) <-> In (gsrc j, v) (entries c)).
+
+  Variable key' : idx -> Z.
+  Hypothesis BR2 : forall j, in_range sh' j ->
+    exists m cc : nat, (m < length RW)%nat /\ (cc < length CL)%nat
+      /\ key' j = Z.of_nat m * Z.of_nat (length CL) + Z.of_nat cc
+      /\ ckey sh ca (gsrc j) = nth m RW 0 * cs + nth cc CL 0.
+  Hypothesis BR3 : forall m cc : nat, (m < length RW)%nat -> (cc < length CL)%nat ->
+    exists j, in_range sh' j /\ in_range sh (gsrc j)
+      /\ key' j = Z.of_nat m * Z.of_nat (length CL) + Z.of_nat cc
+      /\ ckey sh ca (gsrc j) = nth m RW 0 * cs + nth cc CL 0.
+
+  Definition Lout : list (Z * V) := lout V keys data (c_fill c) cs CL 0 RW.
+
+  Lemma master_members k v : In (k, v) Lout <-> exists j, In (j, v) (entries y) /\ key' j = k.
+  Proof.
+    unfold Lout. rewrite lout_In. split.
+    - intros [m [cc [q [Hm [Hcc [Hf [Hk Hv]]]]]]]. destruct (BR3 m cc Hm Hcc) as [j [Hj [Hjs [Hkj Hck]]]].
+      exists j. split; [|rewrite Hkj, Hk; lia].
+      apply (Hy_ent j v Hj). apply (fc_entries V c ca Hc Hca _ v Hjs). fold sh s. rewrite Hck.
+      apply (fc_key_pos V c ca Hc Hca). exists q. fold s keys data cs. split; [exact Hf|]. split; [symmetry; exact Hv|].
+      apply find_pos_some in Hf. destruct Hf as [_ [Hq _]]. unfold keys in Hq. rewrite map_length in Hq. lia.
+    - intros [j [Hin Hk]]. pose proof Hy_can as [Hyr _]. rewrite Forall_forall in Hyr.
+      assert (Hj : in_range sh' j) by (rewrite <- Hy_sh; apply Hyr; unfold entries in Hin; eapply in_combine_l; exact Hin).
+      apply (Hy_ent j v Hj) in Hin. pose proof Hc as [Hcr _]. rewrite Forall_forall in Hcr.
+      assert (Hjs : in_range sh (gsrc j)) by (apply Hcr; unfold entries in Hin; eapply in_combine_l; exact Hin).
+      apply (fc_entries V c ca Hc Hca _ v Hjs) in Hin. apply (fc_key_pos V c ca Hc Hca) in Hin.
+      destruct Hin as [q [Hf [Hv _]]]. destruct (BR2 j Hj) as [m [cc [Hm [Hcc [Hkj Hck]]]]].
+      exists m, cc, q. fold sh in Hf. rewrite Hck in Hf. repeat split; auto. rewrite <- Hk, Hkj. lia.
+  Qed.
+
+  (* result of at least two axes: the sorted key list of from_coo(y) is what the kernels produced *)
+  Lemma master_gsorted ca' :
+    caxes_okb (Z.of_nat (length sh')) ca' = true -> (forall j, key' j = ckey sh' ca' j) ->
+    gsorted V y ca' = Lout.
+  Proof.
+    intros Hca' Hkey. apply SS_fst_unique.
+    - apply gs_pairs_lt; [exact Hy_can|rewrite Hy_sh; exact Hca'].
+    - apply lout_sorted.
+    - intros [k v]. rewrite master_members. pose proof (gs_perm V y ca') as Hp. rewrite Hy_sh in Hp.
+      pose proof Hy_can as [_ [_ Hyl]]. split.
+      + intros Hin. apply (Permutation_in _ (Permutation_sym Hp)) in Hin. rewrite combine_map_l in Hin. apply in_map_iff in Hin.
+        destruct Hin as [[j v'] [E Hin]]. simpl in E. inversion E; subst. exists j. split; [exact Hin|apply Hkey].
+      + intros [j [Hin Hk]]. eapply Permutation_in; [exact Hp|]. rewrite combine_map_l. apply in_map_iff.
+        exists (j, v). split; [simpl; rewrite <- Hk, Hkey; reflexivity|exact Hin].
+  Qed.
+End Master.
+
+(* ================================================================ assembling from_coo of the COO result *)
+Lemma lex_lt_asym a b : lex_lt a b -> lex_lt b a -> False.
+Proof. intros H1 H2. apply (lex_lt_irrefl a). eapply lex_lt_trans; eauto. Qed.
+
+Lemma SS_idx_keyed_unique {V} (l1 l2 : list (idx * V)) :
+  StronglySorted (fun a b : idx * V => lex_lt (fst a) (fst b)) l1 ->
+  StronglySorted (fun a b : idx * V => lex_lt (fst a) (fst b)) l2 ->
+  (forall x, In x l1 <-> In x l2) -> l1 = l2.
+Proof.
+  intros H1. revert l2. induction H1 as [|a l1 Hs1 IH Hall1]; intros l2 H2 Hm.
+  - destruct l2 as [|b l2]; [reflexivity|]. exfalso. apply (Hm b). left; reflexivity.
+  - destruct H2 as [|b l2 Hs2 Hall2]; [exfalso; apply (Hm a); left; reflexivity|].
+    rewrite Forall_forall in Hall1, Hall2.
+    assert (a = b).
+    { destruct (proj1 (Hm a) (or_introl eq_refl)) as [->|Ha]; [reflexivity|].
+      destruct (proj2 (Hm b) (or_introl eq_refl)) as [->|Hb]; [reflexivity|].
+      exfalso. apply (lex_lt_asym (fst a) (fst b)); auto. }
+    subst b. f_equal. apply IH; [assumption|].
+    intros x. split; intros Hx.
+    + destruct (proj1 (Hm x) (or_intror Hx)) as [->|?]; [|assumption]. exfalso. apply (lex_lt_irrefl (fst x)). auto.
+    + destruct (proj2 (Hm x) (or_intror Hx)) as [->|?]; [|assumption]. exfalso. apply (lex_lt_irrefl (fst x)). auto.
+Qed.
+
+Lemma flat1 l d : convert_to_flat [l] [d] = l.
+Proof.
+  unfold convert_to_flat. cbn [shape_bins scale_all flat_sums size fold_right].
+  rewrite flat_map_map'.
+  assert (H : forall l0 : list Z, flat_map (fun a : Z => map (Z.add (1 * a)) [0]) l0 = l0).
+  { induction l0 as [|a l0 IH]; [reflexivity|]. cbn [flat_map]. rewrite IH. cbn [map app]. f_equal. lia. }
+  apply H.
+Qed.
+
+Section Assemble.
+  Variable V : Type.
+  Variable veqb : V -> V -> bool.
+  Variable add : V -> V -> V.
+  Variable y : coo V.
+  Hypothesis Hy : canonical V y.
+  Hypothesis Hyok : shape_ok (c_shape y).
+
+  (* ---- a result of two or more axes *)
+  Lemma assemble_nd (keys : list Z) (data : list V) fill cs CL RW ca' :
+    (2 <= length (c_shape y))%nat -> caxes_okb (Z.of_nat (length (c_shape y))) ca' = true ->
+    gsorted V y ca' = lout V keys data fill cs CL 0 RW ->
+    row_size (c_shape y) ca' = Z.of_nat (length RW) -> col_size (c_shape y) ca' = Z.of_nat (length CL) ->
+    c_fill y = fill ->
+    mkGCXS (c_shape y) ca'
+      (map (fun p : nat * nat => nth (fst p) data fill) (flat_map (rowsel keys cs CL) RW))
+      (map (fun p : nat * nat => Z.of_nat (snd p)) (flat_map (rowsel keys cs CL) RW))
+      (0 :: cumsum_from 0 (map (fun r => Z.of_nat (length (rowsel keys cs CL r))) RW)) fill
+    = gcxs_from_coo y ca'.
+  Proof.
+    intros Hnd Hca' Hgs Hrs Hcs Hf. rewrite (from_coo_nf V y ca' Hyok Hca' Hnd). rewrite Hgs, Hrs, Hf. f_equal.
+    - symmetry. apply lout_snd.
+    - rewrite <- (lout_mod V keys data fill cs CL RW 0). apply map_ext. intros p. unfold colf. rewrite Hcs. reflexivity.
+    - assert (Hrow : map (rowf V y ca') (lout V keys data fill cs CL 0 RW)
+                     = map (fun e : Z * V => fst e / Z.of_nat (length CL)) (lout V keys data fill cs CL 0 RW)).
+      { apply map_ext_in. intros p Hp. rewrite <- Hgs in Hp.
+        destruct (rowf_colf V y ca' Hy Hyok Hca' p Hp) as [_ [E _]]. rewrite E, Hcs. reflexivity. }
+      rewrite Hrow, lout_div.
+      rewrite <- (map_length (fun r => Z.of_nat (length (rowsel keys cs CL r))) RW).
+      apply cumsum_indptr_of. rewrite Forall_map. apply Forall_forall. intros; lia.
+  Qed.
+
+  (* ---- a result of one axis: from_coo keeps the COO's arrays *)
+  Lemma assemble_1d (L : list (Z * V)) n fill :
+    c_shape y = [n] -> c_fill y = fill ->
+    StronglySorted (fun a b : Z * V => fst a < fst b) L ->
+    (forall k v, In (k, v) L <-> In ([k], v) (entries y)) ->
+    forall ca', gcxs_from_coo y ca' = mkGCXS [n] [] (map snd L) (map fst L) [] fill.
+  Proof.
+    intros Hsh Hf HL Hmem ca'.
+    assert (He : entries y = map (fun e : Z * V => ([fst e], snd e)) L).
+    { pose proof Hy as [Hr [Hs Hl]]. apply SS_idx_keyed_unique.
+      - apply SS_map_inv. unfold entries. rewrite map_fst_combine by lia. exact Hs.
+      - clear -HL. induction HL as [|a l Hs IH Hall]; simpl; constructor; [assumption|].
+        apply Forall_forall. intros x Hx. apply in_map_iff in Hx. destruct Hx as [e [<- He]].
+        rewrite Forall_forall in Hall. simpl. left. auto.
+      - intros [j v]. split.
+        + intros Hin. assert (Hj : in_range [n] j).
+          { rewrite <- Hsh. rewrite Forall_forall in Hr. apply Hr. unfold entries in Hin. eapply in_combine_l; exact Hin. }
+          destruct j as [|k [|? ?]]; simpl in Hj; try tauto. apply in_map_iff. exists (k, v). split; [reflexivity|].
+          apply Hmem. exact Hin.
+        + intros Hin. apply in_map_iff in Hin. destruct Hin as [[k v'] [E Hin]]. simpl in E. inversion E; subst.
+          apply Hmem. exact Hin. }
+    unfold gcxs_from_coo. rewrite Hsh, Hf. pose proof Hy as [_ [_ Hl]].
+    assert (Hco : c_coords y = map (fun e : Z * V => [fst e]) L).
+    { rewrite <- (map_fst_combine (c_coords y) (c_data y)) by lia. fold (entries y). rewrite He, map_map. reflexivity. }
+    assert (Hda : c_data y = map snd L).
+    { rewrite <- (map_snd_combine (c_coords y) (c_data y)) by lia. fold (entries y). rewrite He, map_map. reflexivity. }
+    rewrite Hco, Hda, map_map. reflexivity.
+  Qed.
+End Assemble.
+
+(* ================================================================ get_single_element *)
+Lemma ss_find row v : mono row ->
+  (let s := searchsorted_left row v in
+   if (length row <=? s)%nat then None else if nth s row 0 =? v then Some s else None) = find_pos row v 0.
+Proof.
+  intros Hm. cbv zeta. destruct (searchsorted_left_spec row v Hm) as [Hn [Hlt Hge]]. set (s := searchsorted_left row v) in *.
+  destruct (Nat.leb_spec (length row) s) as [Hs|Hs].
+  - symmetry. apply find_pos_absent. intros j Hj. specialize (Hlt j ltac:(lia)). lia.
+  - destruct (Z.eqb_spec (nth s row 0) v) as [E|E].
+    + symmetry. apply find_pos_first; [exact Hs|exact E|]. intros j Hj. specialize (Hlt j Hj). lia.
+    + symmetry. apply find_pos_absent. intros j Hj Hv.
+      destruct (Nat.lt_ge_cases j s) as [H|H]; [specialize (Hlt j H); lia|].
+      specialize (Hge s ltac:(lia)). pose proof (Hm s j H Hj). lia.
+Qed.
+
+Section SingleElement.
+  Variable V : Type.
+  Variable c : coo V.
+  Variable ca : list Z.
+  Hypothesis Hc : canonical V c.
+  Hypothesis Hok : shape_ok (c_shape c).
+  Hypothesis Hca : caxes_okb (Z.of_nat (length (c_shape c))) ca = true.
+
+  Let sh := c_shape c.
+  Let rs := row_size sh ca.
+  Let cs := col_size sh ca.
+  Let s := gsorted V c ca.
+
+  Lemma single_element_den t :
+    in_range sh t ->
+    single_element (map snd s) (map (colf V c ca) s) (indptr_of (map (rowf V c ca) s) rs) (c_fill c)
+                   (ckey sh ca t / cs) (ckey sh ca t mod cs)
+    = den c t.
+  Proof.
+    intros Ht. pose proof (ckey_bounds sh ca Hca t Ht) as Hb. fold rs cs in Hb.
+    pose proof (row_size_nonneg sh ca Hok) as Hrs. fold rs in Hrs.
+    assert (Hcs : 0 < cs) by nia.
+    pose proof (Z.div_mod (ckey sh ca t) cs ltac:(lia)) as Hdm. pose proof (Z.mod_pos_bound (ckey sh ca t) cs Hcs) as Hmb.
+    set (r := ckey sh ca t / cs) in *. set (col := ckey sh ca t mod cs) in *.
+    assert (Hr : 0 <= r < rs).
+    { unfold r. split; [apply Z.div_pos; [apply Hb|exact Hcs]|apply Z.div_lt_upper_bound; [exact Hcs|rewrite Z.mul_comm; apply Hb]]. }
+    unfold single_element.
+    assert (Hr1 : 0 <= r <= row_size (c_shape c) ca) by (fold sh rs; lia).
+    assert (Hr2 : 0 <= r + 1 <= row_size (c_shape c) ca) by (fold sh rs; lia).
+    unfold s, rs, sh. pose proof (fc_ip_start V c ca Hc Hok Hca r Hr1) as E1. rewrite E1.
+    replace (Z.to_nat r + 1)%nat with (Z.to_nat (r + 1)) by lia. pose proof (fc_ip_start V c ca Hc Hok Hca (r + 1) Hr2) as E2. rewrite E2.
+    fold s. set (a := rstart V s (rowf V c ca) r). set (b := rstart V s (rowf V c ca) (r + 1)).
+    pose proof (seg_cols_sincr V s rs cs (rowf V c ca) (colf V c ca) (fc_sorted V c ca Hc Hca) (fc_rc V c ca Hc Hok Hca) r) as Hsi.
+    fold a b in Hsi. pose proof (ss_find _ col (sincr_mono _ Hsi)) as Hss. cbv zeta in Hss.
+    pose proof (row_find V s rs cs (rowf V c ca) (colf V c ca) (fc_sorted V c ca Hc Hca) (fc_rc V c ca Hc Hok Hca) r col Hmb) as Hrf.
+    fold a b in Hrf.
+    destruct (find_pos (seg (map (colf V c ca) s) a b) col 0) as [p|] eqn:Efp.
+    - (* stored *)
+      assert (Hitem : searchsorted_left (seg (map (colf V c ca) s) a b) col = p /\ (p < length (seg (map (colf V c ca) s) a b))%nat
+                      /\ nth p (seg (map (colf V c ca) s) a b) 0 = col).
+      { destruct (Nat.leb_spec (length (seg (map (colf V c ca) s) a b)) (searchsorted_left (seg (map (colf V c ca) s) a b) col)); [discriminate|].
+        destruct (Z.eqb_spec (nth (searchsorted_left (seg (map (colf V c ca) s) a b) col) (seg (map (colf V c ca) s) a b) 0) col); [|discriminate].
+        inversion Hss as [E]. rewrite E in *. auto. }
+      destruct Hitem as [Ei [Hp Hv]]. rewrite Ei.
+      destruct (Nat.leb_spec (length (seg (map (colf V c ca) s) a b)) p); [lia|]. rewrite Hv, Z.eqb_refl.
+      symmetry. apply den_stored; [exact Hc|]. apply (fc_entries V c ca Hc Hca t _ Ht).
+      apply (fc_key_pos V c ca Hc Hca). exists (p + a)%nat. fold s. replace (ckey (c_shape c) ca t) with (r * cs + col) by (fold sh; lia).
+      split; [exact Hrf|]. split; [reflexivity|].
+      apply find_pos_some in Hrf. destruct Hrf as [_ [Hq _]]. rewrite map_length in Hq. lia.
+    - assert (Hnone : (let s0 := searchsorted_left (seg (map (colf V c ca) s) a b) col in
+                       if (length (seg (map (colf V c ca) s) a b) <=? s0)%nat then true
+                       else negb (nth s0 (seg (map (colf V c ca) s) a b) 0 =? col)) = true).
+      { cbv zeta. destruct (Nat.leb_spec (length (seg (map (colf V c ca) s) a b)) (searchsorted_left (seg (map (colf V c ca) s) a b) col)); [reflexivity|].
+        destruct (Z.eqb_spec (nth (searchsorted_left (seg (map (colf V c ca) s) a b) col) (seg (map (colf V c ca) s) a b) 0) col); [discriminate|reflexivity]. }
+      cbv zeta in Hnone.
+      assert (Hfill : den c t = c_fill c).
+      { apply den_unstored. intros Hin. apply (In_nth _ _ []) in Hin. destruct Hin as [q [Hq Hpt]].
+        assert (Hent : In (t, nth q (c_data c) (c_fill c)) (entries c)).
+        { pose proof Hc as [_ [_ Hl]]. unfold entries. apply (in_combine_nth _ _ _ _ [] (c_fill c)); [symmetry; exact Hl|]. exists q. auto. }
+        apply (fc_entries V c ca Hc Hca t _ Ht) in Hent. apply (fc_key_pos V c ca Hc Hca) in Hent. destruct Hent as [q' [Hf _]].
+        fold s in Hf. replace (ckey (c_shape c) ca t) with (r * cs + col) in Hf by (fold sh; lia). congruence. }
+      rewrite Hfill.
+      destruct (Nat.leb_spec (length (seg (map (colf V c ca) s) a b)) (searchsorted_left (seg (map (colf V c ca) s) a b) col)); [reflexivity|].
+      destruct (Z.eqb_spec (nth (searchsorted_left (seg (map (colf V c ca) s) a b) col) (seg (map (colf V c ca) s) a b) 0) col); [discriminate|reflexivity].
+  Qed.
+End SingleElement.
